@@ -11,7 +11,7 @@ on exact rationals (vm_compute) for every 1D / 1Dx1D case (exact LU for small si
 certificate for every size) and compared with the doubles returned by the real code within a tolerance scaled by the
 condition number; the 2D/3D kinds are compared with a 60-digit decimal reference of the same equations (kref.py, itself
 compared exactly with the Gallina model on every rational case).  Independent statement on the real code: value at
-every training point = training value within 16 (n+nb) eps (|M||a| + |f|); affine data is reproduced at the probes."""
+every training point = training value within 32 (n+nb) eps |M|_inf |a|_inf + 64 (n+nb) eps |f|; affine data is reproduced at the probes."""
 import math, os, re, sys, json
 from fractions import Fraction as F
 from decimal import Decimal
@@ -81,14 +81,17 @@ def scattered(rng, d, n, kindex):
             pts.append((off[0] + scale[0] * g / 16.0,))
         rng.shuffle(pts)
         return pts
-    seen = set()
-    while len(pts) < n:
-        g = tuple(rng.randint(0, 64) for _ in range(d))
-        if g in seen:
-            continue
-        seen.add(g)
-        pts.append(tuple(off[k] + scale[k] * g[k] / 8.0 for k in range(d)))
-    return pts
+    while True:
+        seen, pts = set(), []
+        while len(pts) < n:
+            g = tuple(rng.randint(0, 64) for _ in range(d))
+            if g in seen:
+                continue
+            seen.add(g)
+            pts.append(tuple(off[k] + scale[k] * g[k] / 8.0 for k in range(d)))
+        # every axis must have a non-empty range (KrigingUtilities::normalize rejects a null range)
+        if all(len({p[k] for p in pts}) > 1 for k in range(d)):
+            return pts
 
 
 def lattice(rng, d, shape, kindex):
@@ -138,7 +141,8 @@ def gen_cases(c):
             model = KINDS[kind][0]
             d, nb = model.dim, len(model.drifts)
             # too few points: KrigingErrorInsufficientData expected
-            if rep == 0:
+            # (FactorizedKriging only requires more points than each family of drifts: not exercised)
+            if rep == 0 and kind[0] in "KWP":
                 add(kind, scattered(rng, d, 2, ki), "two points")
             for n in sizes(nb, kind in ("K1", "W1", "W3", "K3") or not c.quick()):
                 add(kind, scattered(rng, d, n, ki + rep), "scattered", opt=(n + rep) % 2)
@@ -150,7 +154,7 @@ def gen_cases(c):
                     add(kind, lattice(rng, d, shape, ki + rep), "lattice %s" % "x".join(map(str, shape)), opt=rep % 2)
             # several calls of buildInterpolation on the same object
             if kind in ("K1", "K2", "K3", "G11"):
-                for n in (nb + 1, 8):
+                for n in (nb + 1, 6):
                     pts = scattered(rng, d, n + nb + 2, ki + rep)
                     add(kind, pts[:n], "second build, same data", stages=[n, n])
                     add(kind, pts[:n + 1], "second build after one more point", stages=[n, n + 1])
@@ -237,7 +241,7 @@ def parse_coq(out):
     """every `= term : type` printed by coqc -> python (tuples, lists, Fractions, identifiers)"""
     res = []
     for m in re.finditer(r"^\s+= (.*?)^\s+: ", out, flags=re.S | re.M):
-        toks = re.findall(r"[\[\]();,#]|[^\s\[\]();,#]+", m.group(1))
+        toks = re.findall(r"[\[\]();,#]|[^\s\[\]();,#]+", re.sub(r"%[A-Za-z_]+", "", m.group(1)))
         pos = [0]
 
         def atom():
@@ -339,11 +343,14 @@ def main(c):
         ac = [cv(v) for v in coef]
         # (1) independent statement on the real code: value at every training point = training value
         bad = None
+        # residual of a backward-stable solve is bounded norm-wise: N eps |M|_inf |a|_inf (not row by row)
+        normscale = float(max(sum(abs(v) for v in row) for row in r.m) * max(abs(v) for v in ac))
         for i in range(n):
-            scale = sum(abs(r.m[i][j]) * abs(ac[j]) for j in range(N)) + abs(r.fs[i])
-            tol = 16 * N * EPS * float(scale) + 1e-300
+            tol = 32 * N * EPS * normscale + 64 * N * EPS * abs(cs.f[i]) + 1e-300
             e = abs(vt[i] - float(r.fs[i]))
-            worst["train"] = max(worst["train"], e / tol)
+            if e / tol > worst["train"]:
+                worst["train"] = e / tol
+                worst["train_case"] = "%s %s n=%d stages=%s e=%.3g normscale=%.3g cond=%.3g" % (cs.kind, cs.family, n, cs.stages, e, normscale, r.cond)
             if e > tol and bad is None:
                 bad = (i, e, tol)
         if bad:
@@ -430,12 +437,12 @@ def main(c):
         fs = [F(v) for v in cs.f]
         prb = [tuple(F(u) for u in p) for p in cs.probes]
         n_final = cs.stages[-1]
-        if cs.kind in ("K1", "P1", "G11") and (len(cs.stages) > 1 or n_final <= 10):
+        if cs.kind in ("K1", "P1", "G11") and (len(cs.stages) > 1 or n_final <= 8):
             fn = "run_k1 %s 0" if cs.kind != "G11" else "run_g11 %s"
             for stale in (("true", "false") if len(cs.stages) > 1 else ("true",)):
                 evals.append("(%s %s %s %s %s)" % (fn % stale, qlist(cs.stages, lambda s: "%d%%nat" % s), qlist(xs, qpt), qlist(fs), qlist(prb, qpt)))
                 plan.append((cs, "lu", stale == "true"))
-        elif cs.kind in ("W1", "F11") and n_final <= 10:
+        elif cs.kind in ("W1", "F11") and n_final <= 8:
             evals.append("(%s %s %s %s)" % ("run_w1" if cs.kind == "W1" else "run_f11", qlist(xs, qpt), qlist(fs), qlist(prb, qpt)))
             plan.append((cs, "lu", False))
         if len(cs.stages) == 1 and r.status == "ok":
@@ -446,8 +453,12 @@ def main(c):
             fn = {"K1": "cert_k1", "P1": "cert_k1", "W1": "cert_w1", "G11": "cert_g11", "F11": "cert_f11"}[cs.kind]
             evals.append("(%s %s %s %s%%Z %d%%positive %s)" % (fn, qlist(xs, qpt), qlist(fs), qlist([s * den for s in sol], lambda z: "(%d)" % z), den, qlist(prb, qpt)))
             plan.append((cs, "cert", False))
-    txt = ("From Coq Require Import QArith List.\nFrom C19 Require Import C19Model.\nImport ListNotations.\nOpen Scope Q_scope.\n" +
-           "".join("Eval vm_compute in %s.\n" % e for e in evals))
+    # rationals are printed as (numerator, denominator) pairs of integers (Coq prints some Q constants in hexadecimal)
+    txt = ("From Coq Require Import QArith List.\nFrom C19 Require Import C19Model.\nImport ListNotations.\nOpen Scope Q_scope.\n"
+           "Definition zq (q : Q) := (Qnum q, Zpos (Qden q)).\n"
+           "Definition out5 (r : status * bool * bool * list Q * list Q) := let '(s, e, i, a, p) := r in (s, e, i, map zq a, map zq p).\n"
+           "Definition out4 (r : status * bool * bool * list Q) := let '(s, e, i, p) := r in (s, e, i, map zq p).\n" +
+           "".join("Eval vm_compute in %s %s.\n" % ("out4" if pl[1] == "cert" else "out5", e) for e, pl in zip(evals, plan)))
     rc, mout, err = c.coq_eval(["C19Model.v"], txt, timeout=900)
     if rc != 0:
         c.report("model-run", "model evaluation failed: " + err[-600:], {"stderr": err[-3000:]}, False)
@@ -474,7 +485,9 @@ def main(c):
                      cs.json(), False)
             continue
         ref_a = r.variants["stale" if stale else "fresh"]
-        mprobe = m[-1]
+        mprobe = [F(u[0]) / F(u[1]) for u in m[-1]]
+        if route == "lu":
+            m = m[:3] + ([F(u[0]) / F(u[1]) for u in m[3]],)
         pref = [kref.evaluate(cs.model, r.pts[:r.n], ref_a, p) for p in r.probes]
         if route == "lu" and list(m[3]) != list(ref_a):
             c.report("model-coef:%s:%s" % (cs.kind, cs.family), "coefficients of the Gallina model (exact LU) differ from the exact solution of the kriging equations written in kref.py", cs.json(), False)
@@ -502,7 +515,7 @@ def main(c):
     c.trusted("hand-written Gallina model coq/C19Model.v (assembly of the dual kriging system, evaluation, resize/copy of the right-hand side, normalisation) tied to the code by execution only",
               "props/C19/driver.cxx built with -fno-access-control to read the private coefficient vector; hexadecimal float transfer",
               "props/C19/kref.py: exact (fractions) / 60-digit (decimal, ln, sqrt) reference of the kriging equations, compared exactly with the Gallina model on every rational case; used alone for the 2D and 3D covariances",
-              "tolerances: training points 16 N eps (|M||a|+|f|); coefficients and probes 1000 N eps cond_inf(M) |a| (cases with cond > 1e10 are not compared)")
+              "tolerances: training points 32 N eps |M|_inf |a|_inf + 64 N eps |f| (norm-wise residual bound of a backward-stable solve); coefficients and probes 1000 N eps cond_inf(M) |a| (cases with cond > 1e10 are not compared)")
     # ---- proofs
     files = ["C19Spec.v", "C19Model.v", "C19ModelR.v", "C19Proofs.v", "Properties_C19.v",
              "Properties_C19_rebuild_refuted.v" if stale_seen else "Properties_C19_rebuild.v"]
